@@ -160,7 +160,7 @@ CLAIMS['C19'] = dict(
          "type assignment): a torsion is counted under its central bond j-k in either direction and over the full list (before the exclusion set "
          "is applied), a dihedral's type key is its UFF sequence up to reversal followed by the count filed under its own central bond and is the "
          "same for the dihedral listed backwards, and the exclusion set is applied through delete_if_all_in_set exactly when it holds at least "
-         "four atoms, and the parameter entry of a type is dihedral_params of that type's own key (either orientation) with the caller's rules. The rest of dihedral typing (first-seen numbering, dropping of undefined torsions, coefficient strings), renaming / "
+         "four atoms, and the parameter entry of a type is dihedral_params of that type's own key (either orientation) with the caller's rules, and a type's coefficient line is formatted from its own four parameters. The rest of dihedral typing (first-seen numbering, dropping of undefined torsions, coefficient strings), renaming / "
          "permutation invariance and the retyping tables are only checked with a stated bound: all labelled trees up to 5 nodes, rings, "
          "ring assemblies, a metal node, graphs mixing kept and dropped torsions, 4 type assignments, renamings with reversed terms, all 221 UFF types.",
     note="Assumed contracts: networkx Graph (nodes = endpoints, adj / neighbors = the distinct bonded atoms, edges = every bond once), itertools.combinations, "
